@@ -85,7 +85,7 @@ PROPS = {
     "C12": writer_prop("C12", ["sticky_write", "sticky_element", "sticky_field", "sticky_end", "sticky_fieldAny", "sticky_begin",
                                 "sticky_queries", "fail_keeps_first", "fail_records", "free_safe", "after_free_sticky",
                                 "reset_clean", "closed_handle", "double_end", "no_panic", "no_panic_from"], ["c12"],
-                       {"assumptions": ["partial: build_ok_parses is decided by the differential stream and the Go-side oracle, not by a theorem; no_panic excludes Copy/Merge from arbitrary bytes",
+                       {"assumptions": ["partial: build_ok_parses is a theorem for the programs of value trees (C01.written_tree_reads_back) and Copy/Merge programs (C16.copy_preserves); for arbitrary misuse programs it is decided by the differential stream and the Go-side oracle; no_panic covers the whole alphabet incl. Copy/Merge from arbitrary bytes",
                                         "calls through a handle kind the Go type system rejects are outside the alphabet (bad-op)"]}),
     "C16": writer_prop("C16", ["common_field_unchanged", "absent_field_zero", "order_irrelevant", "copy_preserves"], ["c16"],
                        {"assumptions": ["copy_preserves: source message well formed (distinct tags < 2^16, self-delimiting values), written fields with distinct tags, total size below 2^32",
